@@ -48,7 +48,7 @@ public:
   void ComputeIIS() override {}
   IIS GetIIS() override;
 
-  bool IsMIP() const override { return true; }
+  bool IsMIP() const override;   // env RECSOLVER_ISMIP (default 1); 0 makes the driver return the basis
   bool IsQCP() const override { return st_.n_quad > 0; }
   void SetInterrupter(mp::Interrupter *) override {}
   void Solve() override;
@@ -57,6 +57,7 @@ protected:
   pre::ValueMapDbl DualSolution() override;
   void ReportResults() override;
 private:
+  void DumpGraphOnce();
   RecState st_;
 };
 
